@@ -14,6 +14,9 @@ sys.path.insert(0, os.path.dirname(os.path.abspath(__file__)))
 import rsx
 
 
+TARGET_FEATURES = {'avx2': 'Avx2', 'ssse3': 'Ssse3', 'neon': 'Neon'}
+
+
 class ExtractError(Exception):
     pass
 
@@ -808,11 +811,36 @@ def splice(fname, modpath, src, overlay, used, lost, opts=None, shapes=None):
                 ty_start = it.ret_arrow + 2
                 ty = src[ty_start:end]
                 ed.add(ty_start, end, ' (' + ov['ret'] + ': ' + ty.strip() + ')' + (' ' if ty.endswith(' ') else '\n    '), 'OV')
-        if ov['spec']:
+        # R23: a function carrying `#[target_feature(enable = "F")]` is the code compiled for F. Read off that attribute, not
+        # written by hand: (a) `requires cpu_has_F()` is added to the function's contract - calling it is executing F code;
+        # (b) at the end of its body each `&mut` slice/array parameter is labelled `ran_as(Isa::F, p@)` (prelude.rs), the one
+        # source of ISA provenance facts. Changing or removing the attribute changes both.
+        tf_req, tf_label = [], []
+        tfm = None
+        for tfm in re.finditer(r'#\[target_feature\(enable = "([\w.,]+)"\)\]', src[max(0, it.start - 160):it.header_start]):
+            pass
+        if tfm is not None and not re.search(r'[;}]', src[max(0, it.start - 160):it.header_start][tfm.end():]):
+            for feat in tfm.group(1).split(','):
+                if feat not in TARGET_FEATURES:
+                    lost.append((key, 'R23: target feature %r has no model (known: %s)' % (feat, ' '.join(sorted(TARGET_FEATURES)))))
+                    continue
+                tf_req.append('crate::vprelude::cpu_has_%s()' % feat)
+                if it.body_open is not None and it.ret_arrow is None:
+                    for pm in re.finditer(r'\b(\w+): &mut \[', src[it.header_start:it.body_open]):
+                        tf_label.append('crate::vprelude::label_entry_point(crate::vprelude::Isa::%s, %s@);' % (TARGET_FEATURES[feat], pm.group(1)))
+        if ov['spec'] or tf_req:
             text = '\n'.join(l for l in ov['spec'] if l.strip())
+            if tf_req:
+                r23 = ', '.join(tf_req) + ', /* R23 */ '
+                if re.search(r'\brequires\b', text):
+                    text = re.sub(r'\brequires\b', 'requires ' + r23, text, count=1)
+                else:
+                    text = '        requires ' + r23 + '\n' + text
             ed.add(it.sig_end, it.sig_end, '\n' + text + tag + '\n    ', 'OV')
         pend = []
         n_lost0 = len(lost)
+        if tf_label:
+            pend.append((it.end - 1, it.end - 1, '\n        proof { /* R23 */ ' + ' '.join(tf_label) + ' }\n    ', 'OV'))
         if ov['loops']:
             kinds = [L.kind for L in it.loops]
             shapes['loop_kinds'][key] = kinds
